@@ -68,9 +68,9 @@ theorem finalizer_sweeps_then_waits (s : Sys) (jo : JobObj) (rj : Job) (fz : Boo
 of a cached pod labelled with and controlled by the Job that is neither found nor recorded -/
 theorem finalizerTasks_mem (s : Sys) (jo : JobObj) (rj : Job) (t : Task) :
     t ∈ finalizerTasks s jo rj ↔
-      t ∈ tasksForRefsConfirmed s rj.status.tasks ∨
+      t ∈ tasksForRefsConfirmed s jo rj.status.tasks ∨
       ∃ p ∈ s.podCache, podTask p = some t ∧ p.jobLabel = some jo.uid ∧ p.ownerUid = some jo.uid ∧
-        (∀ t' ∈ tasksForRefsConfirmed s rj.status.tasks, t'.name ≠ p.pod.name) ∧
+        (∀ t' ∈ tasksForRefsConfirmed s jo rj.status.tasks, t'.name ≠ p.pod.name) ∧
         (∀ r ∈ rj.status.tasks, r.name ≠ p.pod.name) :=
   mem_finalizerTasks s jo rj t
 
@@ -85,9 +85,9 @@ theorem unrecorded_task_swept (s : Sys) (jo : JobObj) (rj : Job) (p : PodObj) (t
     (∃ c ∈ newCalls s (handleFinalizer s jo rj true).1, c.verb = "delete" ∧ c.res = "pods" ∧ c.force = false ∧ c.name = t.name) ∧
     (∀ rj' f', (handleFinalizer s jo rj true).2 = some (rj', f') → f' = true) := by
   have hmem : t ∈ finalizerTasks s jo rj := by
-    by_cases hf : t ∈ tasksForRefsConfirmed s rj.status.tasks
+    by_cases hf : t ∈ tasksForRefsConfirmed s jo rj.status.tasks
     · exact (mem_finalizerTasks s jo rj t).mpr (Or.inl hf)
-    · by_cases hn : ∀ t' ∈ tasksForRefsConfirmed s rj.status.tasks, t'.name ≠ p.pod.name
+    · by_cases hn : ∀ t' ∈ tasksForRefsConfirmed s jo rj.status.tasks, t'.name ≠ p.pod.name
       · exact (mem_finalizerTasks s jo rj t).mpr (Or.inr ⟨p, hp, ht, hl, ho, hn, hu⟩)
       · -- a found task carries the name of a ref of the status, which `p` is not named after
         exfalso
